@@ -425,7 +425,7 @@ def run_check(pid, tier, jobs, meta, seed=0, procs=None, job_timeout=None, extra
     n_extreme = 0
     for j, o in outs:
         exo = j.get("opts", {}).get("extreme")
-        if not exo or o.get("error") or not o.get("theta"):
+        if not exo or o.get("error") or o.get("theta") is None:
             continue
         vr = [tuple(x) for x in j.get("opts", {}).get("var_ranges", [])]
         for k in range(int(exo.get("points", 2))):
@@ -465,7 +465,7 @@ def run_check(pid, tier, jobs, meta, seed=0, procs=None, job_timeout=None, extra
                 if gname in twn or e.get("kind") == "twin" or e.get("ok", True):
                     continue
                 key = next((r.get("key") for r in o["results"] if r["name"] == gname), None) or next((f.get("key") for f in o["facts"] if f["name"] == gname), None) or gname
-                detail = "floating-point result at an extreme parameter point: " + (e.get("detail") or ("library %.12g vs reference %.12g" % (e.get("lib", float("nan")), e.get("ref", float("nan")))))
+                detail = "floating-point run of the real library at a concrete (extreme) parameter point: " + (e.get("detail") or ("library %.12g vs reference %.12g" % (e.get("lib", float("nan")), e.get("ref", float("nan")))))
                 if (pid, key) in kf:
                     if (pid, key) not in seen_v:
                         knownhits.append((key, kf[(pid, key)].get("what", ""), detail))
